@@ -155,6 +155,11 @@ Classes(b, o) ==
     \cup (IF b.k = "li" /\ b.n > 0 THEN {"li:nest"} ELSE {})
     \cup ({"t:" \o b.runs[i].c : i \in 1..Len(b.runs)} \ {"t:" \o p : p \in PlainClasses})
     \cup {"f:" \o FlagName(b.runs[i].f) : i \in {j \in 1..Len(b.runs) : b.runs[j].f # {} /\ Toks(b.runs[j].c) # <<>>}}
+    \* derived: some text is formatted; a code-font run carries a second format; a formatted run begins or ends with white space
+    \cup (IF \E i \in 1..Len(b.runs) : b.runs[i].f # {} /\ Toks(b.runs[i].c) # <<>> THEN {"fmt"} ELSE {})
+    \cup (IF \E i \in 1..Len(b.runs) : "c" \in b.runs[i].f /\ b.runs[i].f # {"c"} /\ Toks(b.runs[i].c) # <<>> THEN {"fmt:c+"} ELSE {})
+    \cup (IF \E i \in 1..Len(b.runs) : b.runs[i].f # {} /\ Toks(b.runs[i].c) # <<>>
+                                       /\ (Toks(b.runs[i].c)[1] \in Ws \/ Toks(b.runs[i].c)[Len(Toks(b.runs[i].c))] \in Ws) THEN {"fmt:edge"} ELSE {})
     \cup (IF Len(NonEmptyRuns(b)) > 1 THEN {"runs"} ELSE {})
     \cup (IF Tight(b) THEN {"join"} ELSE {})
     \cup (IF o.emph = "_" /\ \E i \in 1..Len(b.runs) : "i" \in b.runs[i].f /\ "b" \notin b.runs[i].f THEN {"opt:us"} ELSE {})
@@ -164,6 +169,11 @@ Classes(b, o) ==
 KC(k) == IF k \in {"tbl", "weak"} THEN "tbl" ELSE "par"
 VisIdx(B) == {i \in 1..Len(B) : Visible(B[i])}
 OrderCls(B) == {KC(B[p[1]].k) \o "<" \o KC(B[p[2]].k) : p \in {q \in VisIdx(B) \X VisIdx(B) : q[1] < q[2]}}
+\* a list item is followed by a visible block that is not a list item
+LiThen(B) == IF \E p \in VisIdx(B) \X VisIdx(B) : p[1] < p[2] /\ B[p[1]].k = "li" /\ B[p[2]].k # "li" THEN {"li<other"} ELSE {}
+DocCls(B) == OrderCls(B) \cup LiThen(B)
+\* for stability every block counts, also those that show nothing
+EveryCls(B, o) == UNION {Classes(B[i], o) : i \in 1..Len(B)} \cup DocCls(B)
 AdjCls(B, lo, hi) == {"adj:" \o B[i].k \o ">" \o B[i + 1].k : i \in {j \in lo..(hi - 1) : j \in 1..(Len(B) - 1)}}
 AllCls(B, o) == UNION {Classes(B[i], o) : i \in VisIdx(B)}
 
@@ -259,7 +269,7 @@ Judge(B, o, obs0, ph) ==
   LET exp == ToMd(B, o)
       obs == Seen(obs0)
       fl  == ph = "exp"
-      all == AllCls(B, o) \cup OrderCls(B)
+      all == AllCls(B, o) \cup DocCls(B)
   IN
   IF \E i \in 1..Len(exp) : exp[i].k = "weak" THEN
     \* the non-GFM table layout is not a Markdown table: the words, once and in order (its column bars are layout)
@@ -281,11 +291,11 @@ Judge(B, o, obs0, ph) ==
         lo == IF emid = <<>> THEN (IF pre > 0 THEN exp[pre].src ELSE 1) ELSE emid[1].src
         hi == IF emid = <<>> THEN (IF suf > 0 THEN exp[Len(exp) - suf + 1].src ELSE Len(B)) ELSE emid[Len(emid)].src
         ks == UNION {Classes(B[emid[i].src], o) : i \in 1..Len(emid)} \cup AdjCls(B, lo, hi)
-              \cup (IF o.meta THEN {"opt:meta"} ELSE {})
+              \cup (IF o.meta THEN {"opt:meta"} ELSE {}) \cup LiThen(B)
     IN {[fld |-> f, ks |-> ks] : f \in {"blocks"} \cup WordDiff(AllEWords(emid), AllOWords(omid))}
 
 \* the second export must reproduce the first one (stable = the harness's plain string comparison)
-StableWits(B, o, stable) == IF stable THEN {} ELSE {[fld |-> "stable", ks |-> AllCls(B, o) \cup OrderCls(B)]}
+StableWits(B, o, stable) == IF stable THEN {} ELSE {[fld |-> "stable", ks |-> EveryCls(B, o)]}
 
 \* an export call must neither fail nor panic
 ViolRet(ret) == IF ret = "ok" THEN {} ELSE {[fld |-> ret, ks |-> {}]}
